@@ -21,7 +21,7 @@ S = "this.sensitivity_uses_same_projector()"
 
 def requests():
     return [
-        Request(UNIT, fn=[CLS + "::.*"], rec=[CLS]),
+        Request(UNIT, fn=[CLS + "::.*", "stir::find_basic_viewgram_indices_in_subset"], rec=[CLS]),
         Request("src/recon_buildblock/PoissonLogLikelihoodWithLinearModelForMean.cxx", fn=["stir::PoissonLogLikelihoodWithLinearModelForMean::.*"]),
         Request("src/recon_buildblock/GeneralisedObjectiveFunction.cxx", fn=["stir::GeneralisedObjectiveFunction::.*"]),
         Request("src/recon_buildblock/distributable.cxx", fn=["stir::get_viewgrams", "stir::zero_end_sinograms", "stir::distributable_computation"]),
@@ -308,6 +308,74 @@ def rule_d_outputs_zeroed(ctx, f):
     return n
 
 
+def rule_f_one_segment_range(ctx, fns):
+    """Value, gradient, sensitivity and Hessian products must all run over the same data: every call from the objective function into
+    a sweep over the projection data (the subset enumeration, its file-local wrapper, the distributable_* computations) carries the
+    segment range (-max_segment_num_to_process, +max_segment_num_to_process); a helper in between hands its caller's range through."""
+    from engine.algebra import LocalDefs
+
+    ENUM = "stir::detail::find_basic_vs_nums_in_subset"
+    M = ("this.max_segment_num_to_process", "this.get_max_segment_num_to_process()")
+    n = 0
+    seen = set()
+    for f in fns:
+        if f.body is None or (f.file, f.line, f.qn) in seen:
+            continue
+        seen.add((f.file, f.line, f.qn))
+        sweeps = [c for c in f.calls() if c.callee and (c.callee == ENUM or c.callee == "stir::find_basic_viewgram_indices_in_subset" or c.callee.startswith("stir::distributable_")) and "setup" not in c.callee and "end_distributable" not in c.callee]
+        if not sweeps:
+            continue
+        defs = LocalDefs(f)
+        sub = {d: defs.single_def(d) for d in defs.decl}
+        member = f.cls == CLS
+        for i, c in enumerate(sweeps):
+            args = [key(a.strip(), False, sub) for a in c.call_args()]
+            fid = f.qn + "(" + f.sig[:30] + ")"
+            short = c.callee.split("::")[-1]
+            if member:
+                ok = any(args[j] in ["(- %s)" % m for m in M] and args[j + 1] in M for j in range(len(args) - 1))
+                ctx.ob("C05.f-one-segment-range", fid, "%s@%d" % (short, i), ok, c.where(), "%s(...) runs over segments -max_segment_num_to_process .. +max_segment_num_to_process" % short if ok else "%s(...) is not given the range -max_segment_num_to_process .. +max_segment_num_to_process: this quantity is computed over other segments than the rest" % short)
+                n += 1
+            elif c.callee == ENUM and len(args) >= 6:
+                ints = [p for p in f.params if p["t"].replace("const ", "").strip() == "int"]
+                pos = {("v%d" % p["d"]): k for k, p in enumerate(f.params)}
+                ok = args[2] in pos and args[3] in pos and pos[args[3]] == pos[args[2]] + 1 and args[2] in {"v%d" % p["d"] for p in ints}
+                ctx.ob("C05.f-one-segment-range", fid, "%s@%d" % (short, i), ok, c.where(), "the helper hands its caller's segment range to the enumeration" if ok else "the helper replaces its caller's segment range by %s .. %s" % (key(c.call_args()[2], True), key(c.call_args()[3], True)))
+                n += 1
+    return n
+
+
+def rule_g_prior_share_same_arguments(ctx, fns):
+    """`penalised = unpenalised - prior's share` needs the prior to be asked about the SAME images: in every function of the objective
+    function that combines a *_without_penalty computation with a call on the prior, the images handed to the prior as inputs are the
+    function's own input parameters, in the order they are handed to the unpenalised computation, and the prior writes into a
+    separate image (never into the function's output, which already holds the data part)."""
+    n = 0
+    seen = set()
+    for f in fns:
+        if f.body is None or f.is_dependent or (f.file, f.line) in seen or "GeneralisedObjectiveFunction" not in (f.cls or ""):
+            continue
+        wo = [c for c in f.calls() if c.k == "CXXMemberCallExpr" and c.c and c.c[0].k == "CXXThisExpr" and (c.callee or "").endswith("_without_penalty")]
+        pr = [c for c in f.calls() if c.k == "CXXMemberCallExpr" and c.c and "this.prior_sptr" in key(c.c[0]) and (c.callee or "").split("::")[-1] not in ("get", "operator->", "operator*", "set_up", "check")]
+        pr = [c for c in pr if len(c.call_args()) >= 2]
+        if not wo or not pr:
+            continue
+        seen.add((f.file, f.line))
+        params = {"v%d" % p["d"]: p for p in f.params}
+        inputs = ["v%d" % p["d"] for p in f.params if p["t"].startswith("const ") and p["t"].rstrip().endswith("&")]
+        outs = ["v%d" % p["d"] for p in f.params if not p["t"].startswith("const ") and p["t"].rstrip().endswith("&")]
+        wo_inputs = [key(a.strip()) for a in wo[0].call_args() if key(a.strip()) in inputs]
+        for i, c in enumerate(pr):
+            a = [key(x.strip()) for x in c.call_args()]
+            a_out, a_in = a[0], [x for x in a[1:] if x in params or x.lstrip("*") in params]
+            ok_in = a_in == wo_inputs and all(x in inputs for x in a_in)
+            ok_out = a_out.lstrip("*") not in outs
+            fid = f.qn + "(" + f.sig[:40] + ")"
+            ctx.ob("C05.g-prior-share-same-arguments", fid, "%s@%d" % ((c.callee or "").split("::")[-1], i), ok_in and ok_out, c.where(), "the prior is given the function's input images %s (as the unpenalised computation) and a separate output image" % [params[x]["n"] for x in a_in] if ok_in and ok_out else "the prior is asked about %s while the unpenalised computation uses %s%s: the result is not `unpenalised - prior's share`" % ([params.get(x.lstrip("*"), {}).get("n", x) for x in a_in], [params[x]["n"] for x in wo_inputs], "" if ok_out else "; the prior writes into the function's own output"))
+            n += 1
+    return n
+
+
 def run(ctx):
     ctx.explanation = (
         "Decides (a) by finite-domain abstract interpretation of every request function of "
@@ -344,6 +412,10 @@ def run(ctx):
 
     lockstep_sweep(ctx, "C05.e-elementwise-sums", allf)
     ctx.require_count("C05.e-elementwise-sums", 5)
+    rule_g_prior_share_same_arguments(ctx, allf)
+    ctx.require_count("C05.g-prior-share-same-arguments", 3)
+    rule_f_one_segment_range(ctx, [f for f in units[0].functions if not f.is_dependent or True])
+    ctx.require_count("C05.f-one-segment-range", 6)
     nd = rule_d_accumulators_start_from_zero(ctx, allf)
     dc = [f for f in units[3].functions if f.qn == "stir::distributable_computation" and f.body is not None and f.cfg_raw]
     if not dc:
